@@ -194,7 +194,13 @@ func c02build(c *fw.Ctx, idx int) c02case {
 		// structural mistakes: a valid template plus one break whose invalidity is certain
 		cs.MustErr = true
 		valid := c02valid(r, d)
-		switch m := r.Intn(10); m {
+		switch m := r.Intn(11); m {
+		case 10:
+			// a second {{else}} is no {{end}}: two openers, two elses of the inner one, a single end
+			cs.Class = "struct-second-else-instead-of-end"
+			inner := []string{"if y", "range y"}[r.Intn(2)]
+			outer := []string{"if x", "range x", "block q()", "try"}[r.Intn(4)]
+			cs.Src = valid + d.L + outer + d.R + d.L + inner + d.R + "a" + d.L + "else" + d.R + "b" + d.L + "else" + d.R + "c" + d.L + "end" + d.R + c02valid(r, d)
 		case 0:
 			cs.Class = "struct-unterminated-action"
 			cs.Src = valid + d.L + " x "
